@@ -14,6 +14,7 @@ import GambitV.Gen.PyRefDb
 import GambitV.Gen.PyCalcFiles
 import GambitV.Gen.PyMetric
 import GambitV.Gen.PyBulk
+import GambitV.Gen.PyConcat
 import GambitV.Model.Bulk
 import GambitV.Model.Indexing
 import GambitV.Spec.Taxonomy
@@ -165,5 +166,34 @@ def ndStr (flat : Bool) (r : Py.Res Py.ND) : String :=
       (if a.rows.isEmpty then "_" else natListsOf (a.rows.map (fun row => row.map (·.toNat))))
   | .raised e => "!" ++ e.name
   | .fuelOut => "!fuel"
+
+/-- the index plumbing of the packed collections (definitions generated from the current source) against the model's `getItemConcat`,
+for the index forms that reach these methods: slices, non-negative in-range integer arrays, Boolean masks of the right length -/
+def concatIndex (sigs : List (List Nat)) (ix : GambitV.Index) : Option String :=
+  let c := Concat.ofList sigs
+  let V : List Int := c.values.map (fun (x : Nat) => (x : Int))
+  let B : List Int := c.bounds.map (fun (x : Nat) => (x : Int))
+  let show' : Py.Res Py.CArr → String := fun r => match r with
+    | .ok a => natsOf (a.values.map Int.toNat) ++ "|" ++ natsOf (a.bounds.map Int.toNat)
+    | .raised e => "!" ++ e.name
+    | .fuelOut => "!fuel"
+  let model : String := match getItemConcat c ix with
+    | .ok (.many m) => natsOf m.values ++ "|" ++ natsOf m.bounds
+    | .ok (.one x) => natsOf x
+    | .error .valueError => "!ValueError"
+    | .error .indexError => "!IndexError"
+    | .error .typeError => "!TypeError"
+  match ix with
+  | .slice a b st =>
+    cmp "ConcatenatedSignatureArray._getitem_slice" Gen.concat_getitem_slice.untranslatable (show' (Gen.concat_getitem_slice V B (a, b, st))) model
+  | .ints l =>
+    if l.all (fun i => decide (0 ≤ i ∧ i < (sigs.length : Int))) then
+      cmp "ConcatenatedSignatureArray._getitem_int_array" Gen.concat_getitem_int_array.untranslatable (show' (Gen.concat_getitem_int_array V B l)) model
+    else none
+  | .mask m =>
+    if m.length == sigs.length then
+      cmp "AdvancedIndexingMixin._getitem_bool_array" Gen.mixin_getitem_bool_array.untranslatable (show' (Gen.mixin_getitem_bool_array V B m)) model
+    else none
+  | _ => none
 
 end Driver.PyGen
